@@ -295,14 +295,17 @@ def run_scenario(scn, validity=None, goal_fault=None, log=None, goal_ref=None, r
             if hasattr(sp, "set_longest_valid_segment_fraction"):
                 sp.set_longest_valid_segment_fraction(0.77)
     p = scn["planner"]
-    cfg = B.PlannerConfig(seed=p["seed"])
     kind = p["kind"]
-    if kind == "PRM":
-        planner = G.PRM(p["prm_timeout_s"], p["connection_radius"], pd, cfg)
-    elif kind == "RRTStar":
-        planner = G.RRTStar(p["max_distance"], p["goal_bias"], p["search_radius"], pd, cfg)
-    else:
-        planner = PLANNERS[kind](p["max_distance"], p["goal_bias"], pd, cfg)
+    try:
+        cfg = B.PlannerConfig(seed=p["seed"])
+        if kind == "PRM":
+            planner = G.PRM(p["prm_timeout_s"], p["connection_radius"], pd, cfg)
+        elif kind == "RRTStar":
+            planner = G.RRTStar(p["max_distance"], p["goal_bias"], p["search_radius"], pd, cfg)
+        else:
+            planner = PLANNERS[kind](p["max_distance"], p["goal_bias"], pd, cfg)
+    except BaseException as e:  # the core's constructors take any parameter values
+        return [{"res": "ctor_raised", "text": f"planner constructor: {type(e).__name__}: {e}"}], space, world, goal
 
     # A deterministic callback that remembers its answers per state OBJECT and keeps every
     # object it was handed alive (so no two live objects share an identity). Every call crosses
